@@ -150,11 +150,33 @@ def build(verbose=False):
     """Returns the build directory for the current working tree of /repo (building it if necessary)."""
     h = tree_hash(); bdir = os.path.join(OUT, 'build', h)
     stamp = os.path.join(bdir, 'OK')
+    if os.path.exists(stamp):
+        try: os.utime(stamp)
+        except OSError: pass
+        return bdir
+    # one builder at a time (checks may be started concurrently on a tree nobody has built yet); the others wait and then find the stamp
+    import fcntl
+    os.makedirs(os.path.join(OUT, 'build'), exist_ok=True)
+    lock = open(os.path.join(OUT, 'build.lock'), 'w'); fcntl.flock(lock, fcntl.LOCK_EX)
+    try: return _build_locked(h, bdir, stamp, verbose)
+    finally: fcntl.flock(lock, fcntl.LOCK_UN); lock.close()
+
+KEEP_BUILDS = 6
+def _build_locked(h, bdir, stamp, verbose):
     if os.path.exists(stamp): return bdir
     t0 = time.time()
-    if os.path.isdir(os.path.join(OUT, 'build')):
-        for d in os.listdir(os.path.join(OUT, 'build')):
-            shutil.rmtree(os.path.join(OUT, 'build', d), ignore_errors=True)
+    # prune: unfinished directories and all but the most recently used finished ones (never one used in the last 2 hours)
+    root = os.path.join(OUT, 'build'); done = []
+    for d in os.listdir(root):
+        dd = os.path.join(root, d)
+        if not os.path.isdir(dd) or d == h: continue
+        st = os.path.join(dd, 'OK')
+        if os.path.exists(st): done.append((os.path.getmtime(st), dd))
+        else: shutil.rmtree(dd, ignore_errors=True)      # a crashed build (builders are serialised by the lock)
+    done.sort(reverse=True)
+    for mt, dd in done[KEEP_BUILDS - 1:]:
+        if time.time() - mt > 7200: shutil.rmtree(dd, ignore_errors=True)
+    if os.path.isdir(bdir): shutil.rmtree(bdir, ignore_errors=True)
     os.makedirs(bdir, exist_ok=True)
     jobs = []
     meta = {'hash': h, 'ir': {}, 'census': {}}
